@@ -91,6 +91,18 @@ def run(ctx):
             sign = rng.choice("?!")
             tail = rng.choice(["", "", " %s%s" % (rng.choice("?!"), w), " pos", " swap", " drop"])
             progs.append(("%s %s %s %s%s%s" % (j, a, b, sign, w, tail)).strip())
+        # binders that take several values off a deep stack (the cached type profile is rebuilt while popping), then a word
+        # that dispatches on the value that was below them
+        for base_, word_ in (('"abc"', "length"), ("[1, 2]", "length"), ("[1] [2]", "add"), ('"a" "b"', "add"), ("0 4 aset", "length"),
+                             ('"abc"', "?empty"), ("[]", "!empty"), ("3 [1]", "swap 1 add"), ('[1] "x"', "swap length"),
+                             ("0 4 aset 2", "?contains"), ("[1, 2] [1]", "?starts")):
+            for k in range(1, 7):
+                names = " ".join("N%d" % i for i in range(k))
+                vals = " ".join(rng.choice(INTS + STRS[:2] + SEQS[:2]) for _ in range(k))
+                junk_ = " ".join(rng.choice(INTS) for _ in range(rng.randint(0, 3)))
+                progs.append("%s %s let %s := %s; %s" % (junk_, base_, names, vals, word_))
+                progs.append("%s %s %s (|%s| %s)" % (junk_, base_, vals, names, word_))
+                progs.append("%s %s %s ?(|%s| ) %s" % (junk_, base_, vals, names, " ".join(["drop"] * k) + " " + word_))
         # … and the sub-expression contexts above positioned values of every type
         for j in JUNK[1:]:
             for form in ("%s let Q := %s;", "%s ?(%s)", "%s [%s]", "%s (%s == 1)", "%s if (%s) then (1) else (2)", '%s "%%( %s %%)"',
@@ -145,6 +157,55 @@ def run(ctx):
                                "theorem": "ZwVerif.C04.pred_not_three_valued"})
             else:
                 meta_ok += 1
+    # --- (3) every ?W / !W pair of the whole vocabulary (?TAG_x ?AT_x ?FORM_x ?OP_x and their ?DW_… spellings, ?root,
+    # ?haschildren): on constants and on DWARF values of two sample files, ?W and !W split the inputs between them
+    voc_ok = 0
+    if not ctx.replay:
+        import os, re
+        vw = [zwcorr.unhx(w).decode() for w in h.words.split()[1:]]
+        vset = set(vw)
+        locv = "entry attribute ?(label == (DW_AT_location, DW_AT_frame_base, DW_AT_data_member_location)) value ?(type == T_LOCLIST_ELEM)"
+        fams = {"TAG": ["entry", "abbrev entry"], "AT": ["entry", "entry attribute", "abbrev entry", "abbrev entry attribute"],
+                "FORM": ["entry attribute", "abbrev entry attribute"], "OP": [locv, locv + " elem"]}
+        files = [os.path.join(common.REPO, "tests", f) for f in ("nullptr.o", "testfile_const_type")]
+        pairs_ = [w for w in vw if w.startswith("?") and "!" + w[1:] in vset]
+        if ctx.tier == "quick":
+            # every OP / FORM / TAG word in one of its spellings, a third of the AT words (all in the thorough tier)
+            pairs_ = [w for w in pairs_ if not re.match(r"\?(DW_)?AT_", w) or rng.random() < 0.35]
+        vlines, vmeta = [], []
+        for w in pairs_:
+            m = re.match(r"\?(DW_)?(TAG|AT|FORM|OP)_(.*)$", w)
+            if m:
+                const = "DW_%s_%s" % (m.group(2), m.group(3))
+                bases = [(None, const), (None, "DW_%s_%s" % (m.group(2), "lo_user") if False else None)]
+                progs_ = [(None, const)] + [(f, b) for f in files[:1 if ctx.tier == "quick" and m.group(2) == "AT" else 2] for b in fams[m.group(2)]]
+            elif w in ("?root", "?haschildren"):
+                progs_ = [(f, b) for f in files for b in ("entry", "raw entry")]
+            else:
+                continue
+            for f, b in progs_:
+                if b is None:
+                    continue
+                for q in (b, "%s %s" % (b, w), "%s !%s" % (b, w[1:])):
+                    vlines.append("Q - %s%s" % (zwcorr.hx("[%s] length" % q), " " + zwcorr.hx(f) if f else ""))
+                vmeta.append((w, f, b))
+        vrecs, _ = h.run_impl_robust(vlines)
+        for k, (w, f, b) in enumerate(vmeta):
+            r0, r1, r2 = vrecs[3 * k:3 * k + 3]
+            if any(r.err for r in (r0, r1, r2)) or not (r0.res and r1.res and r2.res):
+                continue
+            n0, n1, n2 = [int(re.search(r"\|(-?\d+)\)", r.res[0].split(" ")[-1]).group(1)) for r in (r0, r1, r2)]
+            if n1 + n2 != n0 and not (r1.soft or r2.soft):
+                ctx.violation("%s and !%s do not split the %d values of `%s`%s between them: %d + %d"
+                              % (w, w[1:], n0, b, " of " + os.path.basename(f) if f else "", n1, n2),
+                              {"stream": "C04-vocabulary", "input": {"query": "%s %s" % (b, w), "file": f, "negated": "%s !%s" % (b, w[1:])},
+                               "got": [n0, n1, n2], "theorem": "ZwVerif.C04.assertWord_pos_xor_neg"})
+            elif f is None and n1 != 1 and not (r1.soft or r2.soft):
+                ctx.violation("the constant %s does not satisfy %s" % (b, w), {"stream": "C04-vocabulary", "input": {"query": "%s %s" % (b, w)},
+                                                                            "got": [n0, n1, n2]})
+            else:
+                voc_ok += 1
+    ctx.cov["vocabulary_predicate_pairs_ok"] = voc_ok
     ctx.cov["evaluations"] = stats["programs"] + len(lines)
     ctx.cov["distinct_nontrivial"] = stats["distinct_nontrivial"]
     ctx.cov["metamorphic_triples_checked"] = meta_ok
